@@ -22,6 +22,7 @@ import (
 	"context"
 	"encoding/json"
 	"errors"
+	"sync"
 	"time"
 
 	"github.com/bradfitz/gomemcache/memcache"
@@ -101,7 +102,14 @@ func (s SessionStoreImpl[T]) Put(key string, value interface{}, options ...Sessi
 	}
 	return s.underlying.Set(context.Background(), s.db.getFullKey(s.prefixes, key), T(bytes), store.WithExpiration(opts.ttl))
 }
+
+// getAndDeleteMutex makes sure concurrent GetAndDelete calls (of this node) can't both retrieve the same entry,
+// since it's used to make sure one-time values (e.g. authorization codes and nonces) are used only once.
+var getAndDeleteMutex sync.Mutex
+
 func (s SessionStoreImpl[T]) GetAndDelete(key string, target interface{}) error {
+	getAndDeleteMutex.Lock()
+	defer getAndDeleteMutex.Unlock()
 	if err := s.Get(key, target); err != nil {
 		return err
 	}
